@@ -133,7 +133,10 @@ TlsNonEmpty(o) == {s \in TlsSecs(o) : s.aend > s.addr}
 TlsProg(o) == {s \in TlsNonEmpty(o) : ~s.nobits}
 Bad_Tls(o) ==
     LET T == TlsSecs(o)  NE == TlsNonEmpty(o)  P == OfType(o, "TLS") IN
-    IF NE = {} THEN {<<p.idx, 0>> : p \in {q \in P : q.vend > q.vaddr}} \cup (IF Cardinality(P) > 1 THEN {<<0, 1>>} ELSE {})
+    IF NE = {}      \* only empty TLS sections (or none): a PT_TLS, if any, spans nothing but them
+    THEN {<<p.idx, 0>> : p \in {q \in P : q.vend > q.vaddr /\
+                ~(T # {} /\ SMin({s.addr : s \in T}) <= q.vaddr /\ q.vend <= SMax({s.aend : s \in T}))}}
+         \cup (IF Cardinality(P) > 1 THEN {<<0, 1>>} ELSE {})
     ELSE IF Cardinality(P) # 1 THEN {<<0, 1>>}
     ELSE LET p == CHOOSE q \in P : TRUE
              lo == SMin({s.addr : s \in NE})
@@ -142,7 +145,7 @@ Bad_Tls(o) ==
          IN  {<<p.idx, c>> : c \in
                  {c \in 2..9 :
                     \/ c = 2 /\ ~(p.vaddr <= lo /\ p.vaddr \in {s.addr : s \in T})   \* starts at a TLS section, at or before the first byte
-                    \/ c = 3 /\ p.vend # hi                                            \* ends with the last TLS section
+                    \/ c = 3 /\ ~(hi <= p.vend /\ p.vend <= SMax({s.aend : s \in T}))      \* ends with the last TLS section
                     \/ c = 4 /\ ~(progEnd <= p.vfend /\ p.vfend <= p.vend)            \* initialised part is in the file image
                     \/ c = 5 /\ \E s \in MemOcc(o) : ~s.tls /\ Overlap(s.addr, s.aend, p.vaddr, progEnd)
                     \/ c = 6 /\ \E s \in T : s.align > 1 /\ (p.align < s.align \/ p.align % s.align # 0)
@@ -164,7 +167,7 @@ Bad_Relro(o) ==
              \cup {<<s.idx, 6>> : s \in {t \in MemOcc(o) : t.write /\ ~Inside(t, p)
                                                          /\ Overlap(t.addr, t.aend, pageStart, p.vaddr)}}      \* would be made read-only with the first page
              \cup {<<p.idx, c>> : c \in {c \in {1, 2, 7} :
-                    \/ c = 1 /\ ~(Cardinality(hosts) = 1 /\ \A l \in hosts : l.w /\ ~l.x /\ l.bias = p.bias)
+                    \/ c = 1 /\ p.vend > p.vaddr /\ ~(Cardinality(hosts) = 1 /\ \A l \in hosts : l.w /\ ~l.x /\ l.bias = p.bias)
                     \/ c = 2 /\ p.vend % o.page # 0
                     \/ c = 7 /\ ~(p.vfend <= p.vend)}}
 
@@ -327,8 +330,10 @@ NumSegs(b, rl) ==
     + Cardinality({i \in 1..Len(b) : StartsOf(b, i, rl, "RELRO")})
 NumSecs(b) == 1 + Len(b) - 1      \* the NULL section + every part except the header pseudo-part
 FullList(pl, rl) ==
-    LET b0 == <<Hdr(0, 0)>> \o Body(pl, rl)
-    IN  <<Hdr(NumSegs(b0, rl), NumSecs(b0))>> \o Body(pl, rl)
+    LET body == Body(pl, rl)
+        b0 == <<Hdr(0, 0)>> \o body
+        ns == NumSegs(b0, rl)
+    IN  <<Hdr(ns, NumSecs(b0))>> \o body
 
 (* compute_segment_alignments: a LOAD segment's alignment is the largest of the page size and the
    alignments of the parts placed while it is active *)
